@@ -1,0 +1,30 @@
+//go:build verif
+
+package client
+
+import "sync/atomic"
+
+// This file is only compiled with the "verif" build tag. It provides the
+// conformance-checking harness with gates called between two critical
+// sections of one call, outside any lock, which the harness may block to
+// force an interleaving. Nothing here changes behaviour.
+
+type verifGateFn func(site string)
+
+var verifGater atomic.Pointer[verifGateFn]
+
+// VerifSetGate installs fn as the gate function (nil removes it).
+func VerifSetGate(fn func(site string)) {
+	if fn == nil {
+		verifGater.Store(nil)
+		return
+	}
+	f := verifGateFn(fn)
+	verifGater.Store(&f)
+}
+
+func verifGate(site string) {
+	if f := verifGater.Load(); f != nil {
+		(*f)(site)
+	}
+}
